@@ -37,6 +37,8 @@ def run(c):
                 what = "git fsck --strict complains: " + ev["fsckout"][:300]
             elif not ev["refsok"]:
                 what = "a ref outside git-bug's namespaces was created"
+            elif ev.get("interop") and ev["exit"] != 0:
+                what = "stock git cannot work with what git-bug wrote: " + ev["out"][:300]
             else:
                 a = set(start["detail"].split("\n"))
                 b = set(ev["detail"].split("\n"))
